@@ -261,6 +261,28 @@ theorem inv_step (p : Params) (b : Behaviour) (s s' : State) (a : Action) (h : I
           · cases hs
         · cases hs
       · cases hs
+  | helperExit =>
+    simp only [step] at hs
+    split at hs
+    · cases hs
+      exact ⟨h.deadline, h.plan, h.started, h.before_deadline, h.before_exit, h.exited, h.waited,
+        h.returned, h.past_wait, h.past_stdin, h.past_term⟩
+    · cases hs
+  | copyEnd =>
+    simp only [step] at hs
+    split at hs
+    · cases hs
+      exact ⟨h.deadline, h.plan, h.started, h.before_deadline, h.before_exit, h.exited, h.waited,
+        h.returned, h.past_wait, h.past_stdin, h.past_term⟩
+    · cases hs
+
+/-- The descendant's and the copier's steps touch nothing the ladder looks at. -/
+theorem aux_step_fields (p : Params) (b : Behaviour) (s s' : State) (a : Action)
+    (ha : a = .helperExit ∨ a = .copyEnd) (hs : step p b s a = some s') :
+    s'.now = s.now ∧ s'.stage = s.stage ∧ s'.deadline = s.deadline ∧ s'.exitAt = s.exitAt ∧
+    s'.alive = s.alive ∧ s'.waited = s.waited ∧ s'.returned = s.returned := by
+  rcases ha with ha | ha <;> subst ha <;> simp only [step] at hs <;> split at hs <;> cases hs <;>
+    exact ⟨rfl, rfl, rfl, rfl, rfl, rfl, rfl⟩
 
 theorem inv_run (p : Params) (b : Behaviour) (s s' : State) (as : List Action) (h : Inv p b s)
     (hr : run p b s as = some s') : Inv p b s' := by
@@ -293,11 +315,13 @@ def timeLeft (p : Params) (b : Behaviour) (s : State) : Nat :=
 
 /-- Strictly decreases with every step. -/
 def measure (p : Params) (b : Behaviour) (s : State) : Nat :=
-  (if s.returned.isSome then 0 else 1) + (if s.alive then 1 else 0) + stagesLeft s.stage + timeLeft p b s
+  (if s.returned.isSome then 0 else 1) + (if s.alive then 1 else 0) + stagesLeft s.stage + timeLeft p b s +
+    (if s.helper then 1 else 0) + (if s.copyDone then 0 else 1)
 
 theorem measure_init (p : Params) (b : Behaviour) :
-    measure p b (init p b) = 5 + p.delay + p.g1 + p.g2 + b.killLatency := by
-  simp [measure, init, stagesLeft, timeLeft]; omega
+    measure p b (init p b) ≤ 7 + p.delay + p.g1 + p.g2 + b.killLatency := by
+  simp [measure, init, stagesLeft, timeLeft]
+  by_cases hb : b.holder = true <;> by_cases hr : p.recv = false <;> simp [hb, hr] <;> omega
 
 /-- In the last stage a live process has a scheduled exit no later than the kill latency. -/
 theorem kill_exit (p : Params) (b : Behaviour) (s : State) (h : Inv p b s) (hk : s.stage = .kill) :
@@ -309,6 +333,26 @@ theorem kill_exit (p : Params) (b : Behaviour) (s : State) (h : Inv p b s) (hk :
       (Option.map (fun x => p.delay + p.g1 + x) b.onTerm) with
   | none => rw [hx] at this; exact ⟨_, this, Nat.le_refl _⟩
   | some y => rw [hx] at this; simp only [omin] at this; exact ⟨_, this, Nat.min_le_right _ _⟩
+
+/-- (continued) the descendant's exit and the copier's end happen at most once each. -/
+theorem measure_aux (p : Params) (b : Behaviour) (s s' : State) (a : Action)
+    (ha : a = .helperExit ∨ a = .copyEnd) (hs : step p b s a = some s') :
+    measure p b s' < measure p b s := by
+  rcases ha with ha | ha <;> subst ha <;> simp only [step] at hs <;> split at hs
+  · rename_i hh
+    cases hs
+    simp only [measure, timeLeft, hh]
+    cases s.stage <;> simp
+  · cases hs
+  · rename_i hh
+    cases hs
+    have hc : s.copyDone = false := by
+      cases hcd : s.copyDone with
+      | false => rfl
+      | true => exact absurd hcd hh.1
+    simp only [measure, timeLeft, hc]
+    cases s.stage <;> simp
+  · cases hs
 
 theorem measure_step (p : Params) (b : Behaviour) (s s' : State) (a : Action) (h : Inv p b s)
     (hs : step p b s a = some s') : measure p b s' < measure p b s := by
@@ -400,6 +444,8 @@ theorem measure_step (p : Params) (b : Behaviour) (s s' : State) (a : Action) (h
           · cases hs
         · cases hs
       · cases hs
+  | helperExit => exact measure_aux p b s s' .helperExit (Or.inl rfl) hs
+  | copyEnd => exact measure_aux p b s s' .copyEnd (Or.inr rfl) hs
 
 /-- Every run from the initial state is shorter than the initial measure. -/
 theorem run_length (p : Params) (b : Behaviour) (s s' : State) (as : List Action) (h : Inv p b s)
@@ -464,5 +510,91 @@ theorem progress (p : Params) (b : Behaviour) (s : State) (h : Inv p b s) (hr : 
           | none => rfl
           | some e => have := hlater e he; simp; omega
         simp [step, hr, hw, h1, h2]
+
+/-! ### Close does not depend on who else holds the standard-error pipe -/
+
+/-- Steps of the ladder proper (everything except the descendant's exit and the copier's end). -/
+def isLadder : Action → Bool
+  | .helperExit => false
+  | .copyEnd => false
+  | _ => true
+
+/-- Forget the holder set, the parent's read end and the copier. -/
+def core (s : State) : State := { s with helper := false, stderrOpen := false, copyDone := true }
+
+/-- Ladder steps neither read nor (observably) write the forgotten part. -/
+theorem step_core (p : Params) (b : Behaviour) (s : State) (a : Action) (ha : isLadder a = true) :
+    step p b (core s) a = (step p b s a).map core := by
+  cases a with
+  | helperExit => simp [isLadder] at ha
+  | copyEnd => simp [isLadder] at ha
+  | tick d =>
+    simp only [step, apply_ite (Option.map core), Option.map_none, Option.map_some]
+    rfl
+  | procExit =>
+    cases hal : s.alive <;> cases he : s.exitAt <;> simp [step, core, hal, he]
+  | recv =>
+    simp only [step, apply_ite (Option.map core), Option.map_none, Option.map_some]
+    rfl
+  | fire =>
+    by_cases h1 : s.returned.isSome = true
+    · simp [step, core, h1]
+    · cases hd : s.deadline with
+      | none => simp [step, core, h1, hd]
+      | some t =>
+        by_cases h2 : t ≤ s.now
+        · cases hst : s.stage <;> simp [step, core, h1, hd, h2, hst]
+        · simp [step, core, h1, hd, h2]
+
+/-- The other two steps change only the forgotten part. -/
+theorem step_aux_core (p : Params) (b : Behaviour) (s s' : State) (a : Action)
+    (ha : isLadder a = false) (hs : step p b s a = some s') : core s' = core s := by
+  cases a with
+  | helperExit => simp only [step] at hs; split at hs <;> cases hs; rfl
+  | copyEnd => simp only [step] at hs; split at hs <;> cases hs; rfl
+  | tick d => simp [isLadder] at ha
+  | procExit => simp [isLadder] at ha
+  | recv => simp [isLadder] at ha
+  | fire => simp [isLadder] at ha
+
+/-- Erasing the descendant's and the copier's steps from any run leaves a run
+of the ladder with the same visible state. -/
+theorem run_core_filter (p : Params) (b : Behaviour) (s s' : State) (as : List Action)
+    (hr : run p b s as = some s') :
+    run p b (core s) (as.filter isLadder) = some (core s') := by
+  induction as generalizing s with
+  | nil => simp [run] at hr; subst hr; rfl
+  | cons a as ih =>
+    simp only [run] at hr
+    cases hstep : step p b s a with
+    | none => simp [hstep] at hr
+    | some s1 =>
+      simp [hstep] at hr
+      cases ha : isLadder a with
+      | true =>
+        simp only [List.filter_cons, ha, if_true, run]
+        rw [step_core p b s a ha, hstep]
+        exact ih s1 hr
+      | false =>
+        simp only [List.filter_cons, ha]
+        rw [← step_aux_core p b s s1 a ha hstep]
+        exact ih s1 hr
+
+/-- The step function does not look at `holder` and `recv`. -/
+theorem step_params (p p' : Params) (b b' : Behaviour) (s : State) (a : Action)
+    (h1 : p.g1 = p'.g1) (h2 : p.g2 = p'.g2) (h3 : b.onStdin = b'.onStdin) (h4 : b.onTerm = b'.onTerm)
+    (h5 : b.killLatency = b'.killLatency) : step p b s a = step p' b' s a := by
+  cases a <;> simp only [step, h1, h2, h3, h4, h5]
+
+theorem run_params (p p' : Params) (b b' : Behaviour) (s : State) (as : List Action)
+    (h1 : p.g1 = p'.g1) (h2 : p.g2 = p'.g2) (h3 : b.onStdin = b'.onStdin) (h4 : b.onTerm = b'.onTerm)
+    (h5 : b.killLatency = b'.killLatency) : run p b s as = run p' b' s as := by
+  induction as generalizing s with
+  | nil => rfl
+  | cons a as ih =>
+    simp only [run, step_params p p' b b' s a h1 h2 h3 h4 h5]
+    cases step p' b' s a with
+    | none => rfl
+    | some s1 => simp [ih]
 
 end Mutagen.Proofs.CloseLadder
